@@ -16,7 +16,7 @@ RULE = ("every public validator and verifier with every argument position given 
         "non-trivial = the call got past the first top-level type test of its first argument; distinct by (function, arguments)")
 
 THEOREMS = ["validators_families", "verifySignable_families", "verifyDelegation_families", "verifyRoot_families", "class_insufficient_sigs",
-            "class_unknown_role", "class_version_mismatch", "class_type_mismatch"]
+            "class_unknown_role", "class_version_mismatch", "class_type_mismatch", "intLimit_accept_implies", "intLimit_same_on_wf", "intLimit_families", "refused_payload_outcomes"]
 
 VALIDATORS = ["hex_string", "hex_key", "signable", "natural_int", "string", "list_of_hex_keys", "utc_isoformat", "gpg_fingerprint", "gpg_signature",
               "signature", "any_signature", "delegation", "delegations", "delegating_metadata", "byteslike", "expiration_distance", "key"]
@@ -186,6 +186,27 @@ def run(ck: Check) -> None:
         nr4 = gen.sign_env(gen.envelope(gen.root_md([gen.key(10), gen.key(11)], 1, [gen.key(8)], 1, version=4)), [gen.key(10)], True)
         named.append((Case("vroot", [t, nr4], tag="named:root-trusted-rule-insufficient"), "E SignatureError"))
         named.append((Case("vsignable", [gen.sign_env(gen.envelope([1, 2]), ks[:1], False), [k.hex for k in ks], 2, False], tag="named:signable-insufficient"), "E SignatureError"))
+    # payloads holding an integer beyond the interpreter's conversion limit (in-memory only: no file can carry one): the serializer's ValueError is an
+    # argument error, raised once the checks that come before serialization have passed — an undelegated role or a type mismatch is still reported as such
+    # (Model/IntLimit.lean; theorems intLimit_families, refused_payload_outcomes)
+    huge = 10 ** 4300
+    kk = [gen.key(1), gen.key(2)]
+    tmd = gen.envelope(gen.delegating_md("root", {"key_mgr": gen.delegation(kk, 1), "root": gen.delegation(kk, 1)}, version=1))
+    for pl in ({"n": huge}, [1, [huge]], {"a": {"b": [-huge]}}, huge):
+        e_ = {"signatures": {kk[0].hex: {"signature": "ab" * 64}}, "signed": pl}
+        named.append((Case("vsignable", [e_, [kk[0].hex], 1, False], tag="named:huge-int-payload"), "E ArgError"))
+        named.append((Case("vsignable", [e_, [kk[0].hex], 1, True], tag="named:huge-int-payload"), "E ArgError"))
+        named.append((Case("vdeleg", ["key_mgr", e_, tmd, False], tag="named:huge-int-payload"), "E ArgError"))
+        named.append((Case("vdeleg", ["nobody", e_, tmd, False], tag="named:huge-int-payload-unknown-role"), "E UnknownRoleError"))
+        named.append((Case("sign", [{"signatures": {}, "signed": pl}, proto.KeyObj(True, kk[0].seed)], tag="named:huge-int-payload"), "E ArgError"))
+    huge_root = gen.root_md(kk, 1, [gen.key(3)], 1, version=2)
+    huge_root["note"] = huge
+    named.append((Case("vroot", [tmd, gen.envelope(huge_root)], tag="named:huge-int-payload"), "E ArgError"))
+    huge_root3 = dict(huge_root, version=3)
+    named.append((Case("vroot", [tmd, gen.envelope(huge_root3)], tag="named:huge-int-payload-version"), "E MetadataVerificationError"))
+    typed = gen.delegating_md("root", {}, version=1)
+    typed["note"] = huge
+    named.append((Case("vdeleg", ["key_mgr", gen.envelope(typed), tmd, False], tag="named:huge-int-payload-type-mismatch"), "E MetadataVerificationError"))
     res = ck.run_cases([n[0] for n in named], "corr:named-error-mappings/outcome-class")
     for (c, want), r in zip(named, res):
         ck.oracle_checks += 1
